@@ -231,3 +231,105 @@ func partD(c *xs.Ctx, r *xs.Result, only string) {
 		a.Close()
 	}
 }
+
+// ---------------------------------------------------------------------------------------------------------------------
+// Part (e): the accept loop of a real p2p.Server (loopback TCP, MaxPendingPeers = 2) keeps serving after rejected
+// inbound connections. For every bad-connection script, five connections (more than twice the pending slots) are made
+// and dropped one after the other; after each batch a probe peer must still get through the encryption handshake (the
+// server answers an auth message only from setupConn, i.e. after its accept loop took the connection).
+//
+// The only wait in the verdict is the initiator's own 5 s handshake deadline inside the real code; a probe that fails is
+// repeated twice on fresh connections and reported only if all three fail. Where the sandbox offers no loopback listener
+// the part is skipped and says so.
+
+type badScript struct {
+	name string
+	play func(c net.Conn, srvPub *ecdsa.PublicKey)
+}
+
+func badScripts() []badScript {
+	return []badScript{
+		{"connect-and-hang-up", func(c net.Conn, _ *ecdsa.PublicKey) {}},
+		{"garbage-instead-of-auth", func(c net.Conn, _ *ecdsa.PublicKey) {
+			junk := make([]byte, 400)
+			for i := range junk {
+				junk[i] = byte(i*7 + 3)
+			}
+			c.Write(junk)
+		}},
+		{"auth-truncated-then-hang-up", func(c net.Conn, pub *ecdsa.PublicKey) {
+			auth := firstWrite(pub)
+			c.Write(auth[:len(auth)/2])
+		}},
+		{"encryption-handshake-then-garbage-frame", func(c net.Conn, pub *ecdsa.PublicKey) {
+			if err := p2p.VerifDialEncHandshake(c, hsKey("peer"), pub); err != nil {
+				return
+			}
+			c.SetDeadline(time.Now().Add(5 * time.Second))
+			c.Write(make([]byte, 64))
+		}},
+	}
+}
+
+func partE(c *xs.Ctx, r *xs.Result, only string) {
+	if c.NShards > 1 && c.Shard != 1%c.NShards && only == "" {
+		return
+	}
+	srvKey := hsKey("accept-server")
+	stop := make(chan struct{})
+	srv := &p2p.Server{PrivateKey: srvKey, MaxPeers: 10, MaxPendingPeers: 2, Name: "verif-c15", ListenAddr: "127.0.0.1:0", NoDial: true,
+		Protocols: []p2p.Protocol{{Name: "verif", Version: 1, Length: 1, Run: func(*p2p.Peer, p2p.MsgReadWriter) error { <-stop; return nil }}}}
+	if err := srv.Start(); err != nil {
+		r.Count("e_skipped_no_listener", 1)
+		r.Note("C15 part e skipped: the p2p server could not listen on loopback: %v", err)
+		return
+	}
+	defer func() { close(stop); srv.Stop() }()
+	addr := srv.ListenAddr
+	dial := func() (net.Conn, error) { return net.DialTimeout("tcp", addr, 10*time.Second) }
+	probe := func() error {
+		var last error
+		for attempt := 0; attempt < 3; attempt++ {
+			conn, err := dial()
+			if err != nil {
+				last = fmt.Errorf("dial: %v", err)
+				continue
+			}
+			err = p2p.VerifDialEncHandshake(conn, hsKey(fmt.Sprintf("probe-%d", attempt)), &srvKey.PublicKey)
+			conn.Close()
+			if err == nil {
+				return nil
+			}
+			last = err
+		}
+		return last
+	}
+	if err := probe(); err != nil {
+		r.Count("e_skipped_no_listener", 1)
+		r.Note("C15 part e skipped: a first peer cannot reach the freshly started server over loopback: %v", err)
+		return
+	}
+	for _, sc := range badScripts() {
+		if only != "" && only != sc.name {
+			continue
+		}
+		r.Count("e_cases", 1)
+		for i := 0; i < 5; i++ {
+			conn, err := dial()
+			if err != nil {
+				r.Note("C15 part e: dial for %s #%d: %v", sc.name, i, err)
+				continue
+			}
+			sc.play(conn, &srvKey.PublicKey)
+			conn.Close()
+			r.Count("e_bad_connections", 1)
+		}
+		if err := probe(); err != nil {
+			r.Add("e_outcomes", sc.name+"|next-peer-not-served")
+			r.Violate("C15:accept-loop-stops-serving:"+sc.name, fmt.Sprintf("after five inbound connections of kind %q were dropped (server with 2 pending-peer slots), a new peer no longer gets through the encryption handshake, three attempts: %v", sc.name, err),
+				map[string]string{"part": "e", "case": sc.name})
+			return // the server is wedged: later scripts would only repeat the finding
+		}
+		r.Add("e_outcomes", sc.name+"|next-peer-served")
+	}
+}
